@@ -108,6 +108,10 @@ type svc struct {
 func (s *svc) Assigner() (jrpc2.Assigner, error) {
 	s.w.log(event{kind: "assigner", k: s.id, flag: fmt.Sprint(!s.fail)})
 	if s.fail {
+		if s.id%2 == 0 {
+			// a half-built assigner handed back together with the error: still a failure
+			return lassign{s.w, s.id}, errors.New("no assigner today")
+		}
 		return nil, errors.New("no assigner today")
 	}
 	s.asg = lassign{s.w, s.id}
@@ -406,7 +410,11 @@ func run(t *testing.T, sc Scenario) engine.Verdict {
 						cpipe, spipe = channel.Direct()
 						var faults []sim.Fault
 						if st.RecvFailAt > 0 {
-							faults = []sim.Fault{{Op: "recv", At: st.RecvFailAt, Kind: "err"}}
+							kind := "err"
+							if st.K%2 == 0 {
+								kind = "wrapeof" // a transport failure that wraps io.EOF is still a failure
+							}
+							faults = []sim.Fault{{Op: "recv", At: st.RecvFailAt, Kind: kind}}
 							c.faultAt = st.RecvFailAt
 						}
 						c.srvSide = sim.Wrap(fmt.Sprintf("conn%d", st.K), &closeOnce{Channel: spipe}, 0, faults)
